@@ -42,6 +42,7 @@ type wrec struct {
 
 type stepper struct {
 	rng       *rand.Rand
+	firstSeed map[string]int64 // schema class -> seed of its first write to this segment (twins, gen_test.go)
 	seg, peer *vgirpc.ShmSegment
 	unit      int
 	prefill   int
@@ -59,6 +60,7 @@ func (s *stepper) Begin(b replay.Behaviour, rng *rand.Rand) error {
 		return fmt.Errorf("behaviour does not start with Init")
 	}
 	s.rng = rng
+	s.firstSeed = map[string]int64{}
 	s.dataUnits = replay.Int(b[0].Args, "DataUnits")
 	maxAllocs := replay.Int(b[0].Args, "MaxAllocs")
 	s.unit = units[rng.Intn(len(units))]
@@ -208,6 +210,10 @@ func (s *stepper) buildOnce(args map[string]any, gate string) (*genBatch, arrow.
 	n, ex := replay.Int(args, "n"), replay.Int(args, "ex")
 	target := n * s.unit
 	seed := s.rng.Int63()
+	if first, ok := s.firstSeed[sc]; ok && s.rng.Intn(2) == 0 {
+		twinOf[seed] = first
+		defer delete(twinOf, seed)
+	}
 	rows := 0
 	switch rw {
 	case "one":
@@ -311,6 +317,9 @@ func (s *stepper) buildOnce(args map[string]any, gate string) (*genBatch, arrow.
 				b.Release()
 				g.release()
 				return nil, nil, fmt.Errorf("cannot tune %s/%s to %d bytes: pad %d gives %d", sc, rw, target, pad, got)
+			}
+			if _, ok := s.firstSeed[sc]; !ok {
+				s.firstSeed[sc] = seed
 			}
 			return g, b, nil
 		}
